@@ -27,7 +27,7 @@
 (***************************************************************************)
 EXTENDS Naturals, Sequences, TLC, Json, FiniteSets, Words
 W(v) == FromSmall(v, 2)
-CONSTANTS MaxLen, Tok, InstIds
+CONSTANTS MaxLen, Tok, InstIds, Prefixes      \* Prefixes: programs the enumeration starts from (MaxLen counts tokens added after them)
 
 \* ---- instances: callee registers, record sizes, grand callee ----
 \* ebx = <<>> means "not known in the callee"; hasGc = whether the callee has a callee of its own
@@ -102,11 +102,18 @@ ApplyTok(s, vs, t) == IF t = "=l4" THEN LET a == Apply(s, vs, "=") IN IF a.ok TH
 VARIABLES inst, prog, stk, vars, st
 v == <<inst, prog, stk, vars, st>>
 I == Insts[inst]
-Init == /\ inst \in InstIds /\ prog = <<>> /\ stk = <<<<>>, <<>>>>
-        /\ st = <<SearchStart(Insts[inst], 1) # <<>>, SearchStart(Insts[inst], 2) # <<>>>>
-        /\ vars = <<IF SearchStart(Insts[inst], 1) # <<>> THEN InitVars(Insts[inst], SearchStart(Insts[inst], 1)) ELSE <<>>,
-                    IF SearchStart(Insts[inst], 2) # <<>> THEN InitVars(Insts[inst], SearchStart(Insts[inst], 2)) ELSE <<>> >>
-Step(t) == /\ (st[1] \/ st[2]) /\ Len(prog) < MaxLen /\ prog' = Append(prog, t) /\ UNCHANGED inst
+\* run a whole program from the initial state of one search-start variant
+RECURSIVE RunProg(_,_,_)
+RunProg(a, p, i) == IF i > Len(p) \/ ~a.ok THEN a ELSE RunProg(ApplyTok(a.stk, a.vars, p[i]), p, i + 1)
+Start(i0, variant) == IF SearchStart(Insts[i0], variant) = <<>> THEN Bad ELSE Good(<<>>, InitVars(Insts[i0], SearchStart(Insts[i0], variant)))
+Init == /\ inst \in InstIds /\ prog \in Prefixes
+        /\ LET a1 == RunProg(Start(inst, 1), prog, 1)  a2 == RunProg(Start(inst, 2), prog, 1) IN
+           /\ st = <<a1.ok, a2.ok>> /\ stk = <<a1.stk, a2.stk>> /\ vars = <<a1.vars, a2.vars>>
+PrefixLen == IF \E p \in Prefixes : Len(p) <= Len(prog) /\ SubSeq(prog, 1, Len(p)) = p
+             THEN (CHOOSE n \in 0..Len(prog) : (\E p \in Prefixes : Len(p) = n /\ SubSeq(prog, 1, n) = p)
+                                               /\ \A p \in Prefixes : (Len(p) <= Len(prog) /\ SubSeq(prog, 1, Len(p)) = p) => Len(p) <= n)
+             ELSE 0
+Step(t) == /\ (st[1] \/ st[2]) /\ Len(prog) - PrefixLen < MaxLen /\ prog' = Append(prog, t) /\ UNCHANGED inst
            /\ LET a1 == IF st[1] THEN ApplyTok(stk[1], vars[1], t) ELSE Bad
                   a2 == IF st[2] THEN ApplyTok(stk[2], vars[2], t) ELSE Bad IN
               /\ st' = <<a1.ok, a2.ok>> /\ stk' = <<a1.stk, a2.stk>> /\ vars' = <<a1.vars, a2.vars>>
